@@ -86,4 +86,22 @@ _p("C15", "bounded exhaustive enumeration of declarations x target streams; diff
    "group-creation / declaration order with spelling, placeholder, hint and default, keep every description word, and respect 80 columns",
    "DESIGN.md 6 C15")
 
+_FV_NOTE = ("trusted: the bounded std::vector reference and the instrumented element types in checks/fv.hpp, ASan/UBSan, the state key "
+            "(capacity, size, raw contents of all slots) capturing everything the container's behaviour depends on")
+TEXT["C06"] = dict(engine="seqmc", design_ref="DESIGN.md 6 C06",
+    technique="explicit-state BFS to a fixpoint over operation histories of the real container + exhaustive fault-position enumeration, ASan/UBSan",
+    level="model checking of the implementation: every reachable concrete state of fixed_vector (capacities 0..bound, copyable and move-only "
+          "instrumented element types) x every operation with every in-range and out-of-range argument, to a fixpoint - i.e. every finite "
+          "operation sequence over the alphabet - plus every position at which an element copy/move/construction can throw; judged: size <= "
+          "capacity, capacity fixed, unsatisfiable operations throw and leave the container unchanged, no unfilled slot visible, exact "
+          "element accounting (no leak, no double destroy), moved-from containers usable, no sanitizer report",
+    note=_FV_NOTE)
+TEXT["C07"] = dict(engine="seqmc", design_ref="DESIGN.md 6 C07",
+    technique="explicit-state BFS to a fixpoint over operation histories of the real container against a bounded std::vector reference",
+    level="model checking of the implementation: from every reachable concrete state every operation is applied to the real fixed_vector and to "
+          "a std::vector bounded by the capacity; after every transition size, [], at, forward and reverse iteration (all six iterator pairs "
+          "and nitro::lang::reverse), data, front/back must agree; copies equal and independent, moves transfer the sequence, assignment "
+          "replaces the contents (all pairs of abstract-state representatives)",
+    note=_FV_NOTE)
+
 NA = {}
